@@ -2326,6 +2326,10 @@ class Cap(object):
                                 d = (b[1] - a[1]) if op0 in ("<", "<=") else (a[1] - b[1])
                                 cands.append(("guard", d))
                                 cands.append(("guard+1", d + 1))
+                                # a test inside the body may guard the step the other way round (if (!(p > q)) break; p--;): the
+                                # opposite order, exact or off by one, is a candidate as well
+                                cands.append(("guard-", -d))
+                                cands.append(("guard-+1", (-d) + 1))
                 except TooManyStates:
                     pass
                 finally:
